@@ -409,9 +409,9 @@ func errIsNilAt(in ssa.Instruction, errv ssa.Value) (known bool, isNil bool) {
 			continue
 		}
 		var other ssa.Value
-		if b.X == errv {
+		if b.X == errv || reachingStore(b.X) == errv {
 			other = b.Y
-		} else if b.Y == errv {
+		} else if b.Y == errv || reachingStore(b.Y) == errv {
 			other = b.X
 		} else {
 			continue
@@ -710,4 +710,54 @@ func cmpFactsVia(v ssa.Value, at ssa.Instruction) []cmpFact {
 		acc = keep
 	}
 	return acc
+}
+
+// reachingStore: v is a load of a local slot (e.g. a named result that lives
+// in a cell because a deferred literal captures it); returns the value of the
+// store to that slot that precedes the load in the same block with nothing in
+// between that could write the slot, else nil. Calls in between are harmless
+// when the only literals capturing the slot are deferred (they run at exit).
+func reachingStore(v ssa.Value) ssa.Value {
+	ld, ok := v.(*ssa.UnOp)
+	if !ok || ld.Op != token.MUL {
+		return nil
+	}
+	a, ok := ld.X.(*ssa.Alloc)
+	if !ok || a.Referrers() == nil {
+		return nil
+	}
+	onlyDeferred := true
+	for _, ref := range *a.Referrers() {
+		switch x := ref.(type) {
+		case *ssa.Store:
+			if x.Addr != ssa.Value(a) {
+				return nil
+			}
+		case *ssa.UnOp, *ssa.DebugRef:
+		case *ssa.MakeClosure:
+			if x.Referrers() != nil {
+				for _, r2 := range *x.Referrers() {
+					if _, isDefer := r2.(*ssa.Defer); !isDefer {
+						onlyDeferred = false
+					}
+				}
+			}
+		default:
+			return nil
+		}
+	}
+	instrs := ld.Block().Instrs
+	for i := instrIndex(ld) - 1; i >= 0; i-- {
+		switch x := instrs[i].(type) {
+		case *ssa.Store:
+			if x.Addr == ssa.Value(a) {
+				return x.Val
+			}
+		case ssa.CallInstruction:
+			if _, isDefer := x.(*ssa.Defer); !isDefer && !onlyDeferred {
+				return nil
+			}
+		}
+	}
+	return nil
 }
